@@ -3,8 +3,8 @@ import GMGProofs.Lemmas.CycleToy
 /-!
 # C09s — the FMG start-up (`initializeSolution`) is nested iteration and reads no stale data
 
-Property theorems only.  Model: `Cycle.initSolution`, `Cycle.fmgLoop` (`GMGModel/Cycle.lean`), executed by
-`Cycle.exec` (`GMGModel/Solve.lean`).  Specification `fmgSpec`, `cycleSpec`, `exAt` in
+Property theorems only.  Model: `MGCycle.initSolution`, `MGCycle.fmgLoop` (`GMGModel/Cycle.lean`), executed by
+`MGCycle.exec` (`GMGModel/Solve.lean`).  Specification `fmgSpec`, `cycleSpec`, `exAt` in
 `GMGProofs/Lemmas/Cycle{Spec,Fmg}.lean`; `cyc`, `excyc` are spelled out in `C10.cyc_unfold`, `C10.excyc_unfold`.
 
 The start level is `levels - 1` (the code after the `fix:` commit).  `fmg_start_matters` documents what the
@@ -12,7 +12,7 @@ old start level `levels - 2` did for two levels.
 All statements: every `V`, every `Ops V`, every memory, every number of levels, every cycle kind, every `fi ≥ 0`.
 -/
 namespace C09s
-open Cycle
+open MGCycle
 
 variable {V : Type}
 
